@@ -38,7 +38,7 @@ func TestMain(m *testing.M) {
 		"then a definition fitted to it level by level (type, format, bounds at or next to the extremes, multipleOf from the gcd, lengths/sizes at the extremes, matching patterns, enums of the values) with a small probability per constraint of failing and per level of a non-matching type; "+
 		"as spec.Parameter (query/header/path/formData, required/allowEmptyValue variations) or spec.Header; ~2% untyped nil values. "+
 		"non-trivial = items-of-items in the definition, or a declared constraint group reached after an earlier declared group passed (enum after numeric, pattern after length, items after size), or a value of a non-matching kind; distinct by content hash",
-		"a float64 stands for the decimal reading of its shortest round-trip text, a float32 for its exact binary value; numbers within ±(2^53-1)",
+		"a float64 stands for the decimal reading of its shortest round-trip text, a float32 for its exact binary value; numbers within ±(2^53-1), except 64-bit integers against type integer with enum / uniqueItems only (no bound, no multipleOf: C13 bounds those by 2^53)",
 		"bounds are representable in the declared type/format by construction (integer bounds for type integer, inside int32 for format int32): the library diagnoses other bounds as definition errors",
 		"type integer accepts integer kinds and integer-valued floats; type number accepts every numeric kind; format int32 restricts to the int32 range, float to the float32 range",
 		"a required parameter that does not allow empty values rejects the string \"\" (Required && !AllowEmptyValue, no default declared); nothing else depends on Required/In",
@@ -712,6 +712,10 @@ func gen(t *rapid.T) Case {
 		c.Def = freeDef(t, "", 0)
 		return c
 	}
+	if chance(t, 3, "bigints") {
+		c.Value, c.Def = bigIntegers(t)
+		return c
+	}
 	p := &plan{}
 	p.family = pick(t, []string{"int", "int", "int", "int", "int", "int", "int", "float", "float", "float", "string", "string", "string", "string", "string", "bool", "mixed", "mixed", "mixed"}, "family")
 	p.strPool = plainStrings
@@ -736,6 +740,63 @@ func gen(t *rapid.T) Case {
 	c.Value = build(t, p, depth, "")
 	c.Def = fit(t, []sm.Value{c.Value}, 0)
 	return c
+}
+
+// bigIntegers draws 64-bit integers beyond 2^53 (where float64 no longer tells neighbours apart) against
+// type integer with an enum and, for slices, uniqueItems: no bound, no multipleOf (those are C13's ground, and
+// their constraints are bounded by 2^53 there).
+func bigIntegers(t *rapid.T) (sm.Value, sm.Def) {
+	kind := pick(t, []string{"int64", "uint64", "int", "uint"}, "bigkind")
+	pool := []string{"9007199254740992", "9007199254740993", "9007199254740994", "9223372036854775806", "9223372036854775807"}
+	num := func() sm.Value {
+		n := pick(t, pool, "bignum")
+		if sm.IsSigned(kind) && chance(t, 30, "bigneg") {
+			n = "-" + n
+		}
+		return sm.Value{Kind: kind, Num: n}
+	}
+	leaf := sm.Def{Type: "integer", Format: pick(t, []string{"", "int64"}, "bigformat")}
+	if chance(t, 70, "bigenum") {
+		// members as a decoded JSON document gives them: float64, here exactly representable ones
+		for _, m := range []string{"9007199254740992", "9007199254740994", "-9007199254740992", "9223372036854775808"} {
+			if chance(t, 50, "bigmember") {
+				leaf.Enum = append(leaf.Enum, sm.Value{Kind: "float64", Num: m})
+			}
+		}
+	}
+	if chance(t, 40, "bigscalar") {
+		return num(), leaf
+	}
+	elem := pick(t, []string{kind, "interface"}, "bigelem")
+	v := sm.Value{Kind: sm.KSlice, Elem: elem}
+	for i, n := 0, 1+uniformBits(t, 2, "bigcount"); i < n; i++ {
+		v.Items = append(v.Items, num())
+	}
+	return v, sm.Def{Type: "array", UniqueItems: chance(t, 70, "bigunique"), Items: &leaf}
+}
+
+// bigIntegerCase recognises the cases bigIntegers draws (and nothing broader): integers of 64-bit kinds against
+// type integer with no bound and no multipleOf at any level.
+func bigIntegerCase(d *sm.Def, v sm.Value) bool {
+	if d == nil {
+		return false
+	}
+	if v.Kind == sm.KSlice {
+		if d.Type != "array" || d.Items == nil || d.Minimum+d.Maximum+d.MultipleOf != "" {
+			return false
+		}
+		for _, it := range v.Items {
+			if !bigIntegerCase(d.Items, it) {
+				return false
+			}
+		}
+		return true
+	}
+	switch v.Kind {
+	case "int64", "uint64", "int", "uint":
+		return d.Type == "integer" && (d.Format == "" || d.Format == "int64") && d.Minimum+d.Maximum+d.MultipleOf == ""
+	}
+	return false
 }
 
 // ---- running the library ---------------------------------------------------------
@@ -875,8 +936,12 @@ func check(c Case) (out ev.Outcome) {
 		}
 		return ev.Outcome{Classes: []string{"target:" + where, "value:nil", "type:" + c.Def.Type}}
 	}
+	big := false
 	if reason := sm.ValueInDomain(c.Value); reason != "" {
-		return excluded("value:" + reason)
+		if reason != "beyond-safe-integer-range" || !bigIntegerCase(&c.Def, c.Value) {
+			return excluded("value:" + reason)
+		}
+		big = true
 	}
 	data, err := c.Value.Go()
 	if err != nil {
@@ -967,6 +1032,9 @@ func check(c Case) (out ev.Outcome) {
 	sort.Strings(ks)
 	out.Classes = append(out.Classes, ks...)
 	out.Classes = append(out.Classes, "target:"+where, "type:"+c.Def.Type, fmt.Sprintf("items-depth:%d", defDepth(&c.Def)))
+	if big {
+		out.Classes = append(out.Classes, "integers-beyond-2^53")
+	}
 	if want {
 		out.Classes = append(out.Classes, "want:valid")
 	} else {
